@@ -23,6 +23,16 @@ CHECKS = {
    text="Every value of a complete per-type alphabet over a type universe built to stress the printer's hex shortcut (byte arrays of every length 0..64, nested / adjacent byte arrays, sub-byte integers, u128/u256, empty and singleton containers, depth <= 3), every type of C07's universe, and every map of the stated finite family (0..6 names from a reserved-word-derived identifier pool) are printed and parsed back (text module and JSON); module printing is compared over all insertion orders and duplicate names must be rejected.",
    note="Values and maps are built with the Rust constructors; equality is the library's own PartialEq on Value / maps.",
    ref="§6-C15"),
+ "C03": dict(
+   technique="bounded-exhaustive enumeration of source texts (family, all single-edit AST near misses, token-level sources) through the real front end and code generator, intrinsic oracle",
+   text="Every text produced by the generators (the whole well-typed family, every single M_ast edit of the C04 base programs including edits the book leaves unspecified, and the token-level sources) that TemplateProgram::new accepts is instantiated with arguments synthesised from parameters(), debug off and on: instantiate must return Ok (never the internal 'Failed to compile to Simplicity', never a panic) and commit() must be 1 -> 1.",
+   note="Only accepted texts are judged. Arguments are the all-zero value of each reported parameter type.",
+   ref="§6-C03"),
+ "C04": dict(
+   technique="bounded-exhaustive enumeration of single-edit near misses of well-typed programs on the real front end, compared with an independent type checker (R1)",
+   text="Every program of the base set (hand-built static-rules family covering every item kind plus a stride of the generated term family) and every single M_ast edit of it at every site (type, arity, size, bound, literal, name, scope, order, signature, callee, arm, witness edits) is classified by reference checker R1 and given to TemplateProgram::new: accepted iff well-typed. Edits the book leaves open are classified 'unspecified', counted and not judged. Both verdicts must occur per operator.",
+   note="R1 is written from book/src/*.md and C04's statement, bidirectional (checking only), nominal type equality after alias resolution, cast admissibility through layout model R3.",
+   ref="§6-C04"),
 }
 
 NOT_BUILT_REASON = "check not built yet in this round (planned as bounded-exhaustive exploration, DESIGN.md §6); not claimed until it runs"
